@@ -85,8 +85,10 @@ class RealSys:
     def _new(self):
         from aspire import Aspire
         return Aspire(log_likelihood=self.f.log_likelihood, log_prior=self.f.log_prior, dims=2,
-                      parameters=["x_0", "x_1"], prior_bounds={"x_0": [-8, 8], "x_1": [-8, 8]},
-                      flow_backend="verifflow", xp=self.xnp, bounded_to_unbounded=False)
+                      # names not in alphabetical order, different bounds, bounds mapped to the real line: the
+                      # proposal stored in the file depends on every one of these surviving the round trip
+                      parameters=["q", "alpha"], prior_bounds={"q": [-8, 8], "alpha": [-6, 9]},
+                      flow_backend="verifflow", xp=self.xnp, bounded_to_unbounded=True)
 
     def _refs(self):
         from aspire.samples import Samples
